@@ -13,6 +13,8 @@ import (
 var textPieces = []string{
 	"a", "b", "xyz", "hello", " ", "  ", "\n", "\t", "<", ">", "&", "'", "\"", "&amp;", "]]>", "é", "ß", "日本", "😀", "ffi", "İ", "é",
 	"0", "42", "-1", "true", "=", "/", "@", ":", "\\", "iq", "result",
+	// (text that means something to a format string, a template or a shell)
+	"%", "%s", "%20", "%!d", "{}", "$1", "`",
 }
 
 // Text draws a short string from an alphabet rich in XML-special, whitespace
